@@ -393,7 +393,7 @@ func mutationPhase(env *vh.Env, rep *vh.Report, r *vh.Rng) {
 	capt := newCapture()
 	defer capt.ln.Close()
 	var sock *oneway.OneWayTcpClient
-	oc := vh.GuardTimeout(10*time.Second, func() {
+	oc := vh.GuardTimeout(120*time.Second, func() {
 		sock = oneway.GetOneWayTcpClient(oneway.WithServers([]string{capt.ln.Addr().String()}), oneway.WithLicense(""), oneway.WithPcode(1), oneway.WithOid(1))
 	})
 	sockOK := oc.OK() && sock != nil && capt.accept() == nil
@@ -460,7 +460,7 @@ func mutationPhase(env *vh.Env, rep *vh.Report, r *vh.Rng) {
 				route = "makeData"
 			}
 			var got, exp []byte
-			g := vh.GuardTimeout(10*time.Second, func() {
+			g := vh.GuardTimeout(120*time.Second, func() {
 				switch route {
 				case "socket":
 					exp = want
